@@ -132,8 +132,15 @@ func isCurLoad(v ssa.Value) bool {
 	return named != nil && named.Obj().Name() == "parser" && field == "cur"
 }
 
+// curSentinel stands for "the type of the current token" in facts: every value that reads it between two advances is
+// the same value, so what a path has learnt from one test (tt == '[') decides the next (p.cur.TokenType() == '[').
+var curSentinel ssa.Value = ssa.NewConst(constant.MakeString("<type of the current token>"), types.Typ[types.String])
+
 // isCurType reports whether v is the type of the parser's current token.
 func isCurType(v ssa.Value, seen map[ssa.Value]bool) bool {
+	if v == curSentinel {
+		return true
+	}
 	if seen[v] {
 		return true
 	}
@@ -189,6 +196,12 @@ func (a *progAnalysis) explore(fn *ssa.Function, record bool) (nReturn, nReturnN
 	if len(fn.Blocks) == 0 {
 		return true, true
 	}
+	return a.exploreFrom(fn, fn.Blocks[0], record)
+}
+
+// exploreFrom is explore started at an arbitrary block with nothing known: at the header of a loop it finds the
+// no-progress paths around that loop however the loop is reached (also behind a call that always advances).
+func (a *progAnalysis) exploreFrom(fn *ssa.Function, start *ssa.BasicBlock, record bool) (nReturn, nReturnNonNil bool) {
 	ptrResult := false
 	if res := fn.Signature.Results(); res.Len() == 1 {
 		switch res.At(0).Type().Underlying().(type) {
@@ -196,7 +209,7 @@ func (a *progAnalysis) explore(fn *ssa.Function, record bool) (nReturn, nReturnN
 			ptrResult = true
 		}
 	}
-	onPath := map[*ssa.BasicBlock]bool{}
+	onPath := map[*ssa.BasicBlock]int{}
 	var stack []*ssa.BasicBlock
 	steps := 0
 	isNilOnPath := func(v ssa.Value, facts []progFact) bool {
@@ -218,7 +231,24 @@ func (a *progAnalysis) explore(fn *ssa.Function, record bool) (nReturn, nReturnN
 			nReturn, nReturnNonNil = true, true
 			return
 		}
-		if onPath[b] {
+		// A block is entered a second time on a path only when the edge brings a value into one of its phis that is
+		// non-nil only with progress (the result of a callee whose nil result marks an error): `for n != nil { n = parse… }`
+		// tests it at the top of the next round.
+		unroll := false
+		if onPath[b] == 1 && pred != nil {
+			for _, ins := range b.Instrs {
+				phi, ok := ins.(*ssa.Phi)
+				if !ok {
+					break
+				}
+				for i, pb := range b.Preds {
+					if pb == pred && i < len(phi.Edges) && pending[phi.Edges[i]] {
+						unroll = true
+					}
+				}
+			}
+		}
+		if onPath[b] > 0 && !unroll {
 			if record {
 				if a.cycles[fn] == nil {
 					a.cycles[fn] = map[*ssa.BasicBlock][]string{}
@@ -239,10 +269,10 @@ func (a *progAnalysis) explore(fn *ssa.Function, record bool) (nReturn, nReturnN
 			}
 			return
 		}
-		onPath[b] = true
+		onPath[b]++
 		stack = append(stack, b)
 		defer func() {
-			delete(onPath, b)
+			onPath[b]--
 			stack = stack[:len(stack)-1]
 		}()
 		// phis: the value that comes in over the edge pred→b carries its facts and its pending status over
@@ -281,7 +311,7 @@ func (a *progAnalysis) explore(fn *ssa.Function, record bool) (nReturn, nReturnN
 			case *ssa.Call:
 				callee := x.Call.StaticCallee()
 				if callee != nil && a.inScope[callee] {
-					if record {
+					if record && start == fn.Blocks[0] {
 						if a.nEdges[fn] == nil {
 							a.nEdges[fn] = map[*ssa.Function]token.Pos{}
 						}
@@ -323,6 +353,9 @@ func (a *progAnalysis) explore(fn *ssa.Function, record bool) (nReturn, nReturnN
 				return
 			case *ssa.If:
 				f, ok := progCondFact(x.Cond)
+				if ok && isCurType(f.v, map[ssa.Value]bool{}) {
+					f.v = curSentinel
+				}
 				for i, succ := range b.Succs {
 					nf := facts
 					if ok {
@@ -348,7 +381,7 @@ func (a *progAnalysis) explore(fn *ssa.Function, record bool) (nReturn, nReturnN
 			}
 		}
 	}
-	visit(fn.Blocks[0], nil, nil, nil)
+	visit(start, nil, nil, nil)
 	return nReturn, nReturnNonNil
 }
 
@@ -772,6 +805,11 @@ func runProgress(c *Ctx, r *Reporter) {
 			}
 		}
 		_ = ok
+	}
+	// the paths around each loop, from its header with nothing known (the exploration from the function entry stops
+	// at the first call that always advances and never sees a loop behind it)
+	for _, l := range loops {
+		a.exploreFrom(l.fn, l.h, true)
 	}
 	// (2) loops make progress
 	sort.Slice(loops, func(i, j int) bool {
